@@ -201,6 +201,8 @@ for _p in ("C04", "C06", "C08"):
 REGISTRATION = ["Simulator._add_event", "Simulator._add_event[per-key]", "Simulator._add_event[keys-distinct]", "SequentialRunner._generate_sessions[event]"]
 PROPS["C13"]["tasks"].append("SequentialRunner._generate_sessions[event]")
 PROPS["C14"]["tasks"] += ["FundamentalPriceShock.setup", "OrderMistakeShock.setup"]
+PROPS["C15"]["tasks"] += ["PriceLimitRule.setup"]
+PROPS["C16"]["tasks"] += ["TradingHaltRule.setup"]
 PROPS["C14"]["tasks"] += ["Simulator._trigger_event_before_step_for_market", "Simulator._trigger_event_before_order", "SequentialRunner._iterate_market_updates[step]"] + RUNNER_ELEMS + REGISTRATION
 PROPS["C15"]["tasks"] += ["Simulator._trigger_event_before_order"] + RUNNER_ELEMS + REGISTRATION
 PROPS["C16"]["tasks"] += ["Simulator._trigger_event_after_execution", "Simulator._trigger_event_before_step_for_market", "SequentialRunner._iterate_market_updates[step]"] + RUNNER_ELEMS + REGISTRATION
